@@ -1,0 +1,14 @@
+//go:build !verif
+
+package kcp
+
+import "time"
+
+// Verification call-outs. Without the 'verif' build tag they are empty,
+// inlinable functions and the compiler removes every call site.
+
+func verifSchedPut(ts *TimedSched, f *func(), deadline time.Time) bool { return false }
+func verifPoolGet(bp *bufferPool) []byte                               { return nil }
+func verifPoolPut(bp *bufferPool, buf []byte) bool                     { return false }
+func verifFlushAdmitted(kcp *KCP, newSegs int)                         {}
+func verifYield(point int)                                             {}
